@@ -41,7 +41,7 @@ func init() {
 			"internal/storage/memory + its GC":        "real (instrumented), chosen per run",
 			"external storage":                        "stub SimStorage (copying or aliasing), chosen per run",
 			"utils.Timestamp updater":                 "stub daemon on the simulated clock",
-			"fasthttp accept loop / worker pool":      "stub (harness.Conn); request/response codecs real",
+			"fasthttp accept loop / worker pool":      "stub (harness.Conn); request/response codecs real; in 15 % of the runs fasthttp's real connection loop (ServeConn) serves the requests over a simulated connection with tape-chosen segmentation and short reads",
 			"sync.Mutex / sync.Pool / goroutines":     "simulated by simrt",
 		},
 	})
